@@ -18,7 +18,21 @@ pub fn install_hook() {
             } else {
                 "<non-string panic>".to_string()
             };
-            let (file, line) = info.location().map(|l| (l.file().to_string(), l.line())).unwrap_or(("?".into(), 0));
+            let (mut file, line) = info.location().map(|l| (l.file().to_string(), l.line())).unwrap_or(("?".into(), 0));
+            // innermost usvg / resvg function on the stack: tells *which* call site reached a panicking
+            // helper of a dependency (several converters unwrap the same tiny-skia constructor)
+            let bt = std::backtrace::Backtrace::force_capture().to_string();
+            for l in bt.lines() {
+                let t = l.trim();
+                if let Some(i) = t.find(": ") {
+                    let name = &t[i + 2..];
+                    if (name.starts_with("usvg::") || name.starts_with("resvg::")) && !name.contains("verif") {
+                        let name = name.split("::{{closure}}").next().unwrap_or(name);
+                        file = format!("{}@{}", file, name);
+                        break;
+                    }
+                }
+            }
             LAST.with(|l| *l.borrow_mut() = Some((msg, file, line)));
         }));
     });
@@ -32,6 +46,17 @@ pub struct PanicSite {
 
 /// `crates/resvg/src/render.rs:attempt_to_add_with_overflow` — no line numbers, digits normalised
 pub fn canonical(msg: &str, file: &str) -> String {
+    let (file, func) = match file.split_once('@') {
+        Some((f, g)) => (f, Some(g)),
+        None => (file, None),
+    };
+    let msg_owned;
+    let msg = if let Some(g) = func {
+        msg_owned = format!("{} @{}", msg.lines().next().unwrap_or(""), g);
+        msg_owned.as_str()
+    } else {
+        msg
+    };
     let f = if let Some(i) = file.find("crates/") {
         &file[i..]
     } else if let Some(i) = file.rfind("/src/") {
